@@ -106,6 +106,24 @@ def forbidden_hits(files):
     return hits
 
 
+def import_closure(modules):
+    """source files of the given modules and of everything of this project they import, transitively"""
+    seen, todo = {}, list(modules)
+    while todo:
+        m = todo.pop()
+        if m in seen:
+            continue
+        path = os.path.join(LEAN, *m.split(".")) + ".lean"
+        if not os.path.exists(path):
+            continue
+        seen[m] = path
+        for line in strip_comments(open(path).read()).split("\n"):
+            mm = re.match(r"\s*(?:public\s+)?import\s+(\S+)", line)
+            if mm and (mm.group(1).startswith("LokyModel") or mm.group(1).startswith("Drivers")):
+                todo.append(mm.group(1))
+    return sorted(seen.values())
+
+
 def lean_files():
     res = []
     for d, _, fs in os.walk(LEAN):
@@ -150,7 +168,7 @@ def obligations(pid, modules, tier, extra_targets=()):
         errs = [l for l in out.split("\n") if l.startswith("error")][:6]
         ob.failed.append((",".join(modules), "lake build failed: " + " | ".join(errs)))
         return ob
-    hits = forbidden_hits(lean_files())
+    hits = forbidden_hits(import_closure(modules))
     if hits:
         ob.failed.append(("lean tree", "forbidden construct: " + "; ".join(hits[:5])))
     rc, out = lake(["env", "lean", os.path.relpath(audit, LEAN)])
